@@ -222,6 +222,10 @@ func avalEqual(a, b aval) (bool, bool) {
 		case aIface:
 			return y.dyn == nil, true
 		}
+	case aSlice:
+		if _, ok := b.(aNil); ok {
+			return false, true // a slice value made by the program or a hook is not the nil slice
+		}
 	case aAtom:
 		switch y := b.(type) {
 		case aAtom:
@@ -461,6 +465,12 @@ func (in *absInterp) Call(fn *ssa.Function, args []aval, bind []aval) aval {
 						panic(absPanic{aAtom{"runtime error: slice bounds out of range"}})
 					}
 					fr.vals[x] = aSlice{arr: base.arr, off: base.off + lo, n: hi - lo}
+				case aStr:
+					lo, hi := bound(x.Low, 0), bound(x.High, len(base))
+					if lo < 0 || hi > len(base) || lo > hi {
+						panic(absPanic{aAtom{"runtime error: slice bounds out of range"}})
+					}
+					fr.vals[x] = aStr(string(base)[lo:hi])
 				case aNil:
 					lo, hi := bound(x.Low, 0), bound(x.High, 0)
 					if lo != 0 || hi != 0 {
